@@ -93,15 +93,20 @@ def POut.Tiled (t : POut) : Prop := TiledFrom 0 t.origins t.text.length
 
 theorem tiled_empty : ({} : POut).Tiled := by simp [POut.Tiled, TiledFrom]
 
-/-- `push` of a non-empty string preserves the tiling -/
-theorem push_tiled (t : POut) (s : List Nat) (src : Option (List Nat × Range)) (h : t.Tiled) (hs : s ≠ []) :
+/-- `push` preserves the tiling (for every string, empty or not) -/
+theorem push_tiled (t : POut) (s : List Nat) (src : Option (List Nat × Range)) (h : t.Tiled) :
     (t.push s src).Tiled := by
-  unfold POut.Tiled POut.push
-  simp only [List.length_append]
-  apply insert_end _ _ _ _ _ h
-  · have : 0 < s.length := List.length_pos_iff.mpr hs
-    omega
-  · rfl
+  unfold POut.push
+  split
+  · exact h
+  · rename_i hs
+    unfold POut.Tiled
+    simp only [List.length_append]
+    apply insert_end _ _ _ _ _ h
+    · have : s ≠ [] := by simpa using hs
+      have : 0 < s.length := List.length_pos_iff.mpr this
+      omega
+    · rfl
 
 /-- every position of a tiled output has exactly the origin recorded for the segment that contains it:
     `origin pos = (path, pos - seg.begin + src.begin)`, or none when the segment has no source -/
